@@ -191,11 +191,22 @@ func init() {
 		if !ok {
 			panic(unsupported(fmt.Sprintf("(*regexp.Regexp).MatchString on %T", args[0])))
 		}
-		return re.re.MatchString(goStr(args[1]))
+		if s, conc := args[1].(string); conc {
+			return re.re.MatchString(s)
+		}
+		// a compiled expression on an opaque or symbolic string: the same membership atom as regexp.MatchString
+		// with the pattern the expression was compiled from
+		return matchStringSym(st, re.re.String(), args[1]).(tuple)[0]
 	}
 	intrinsics["regexp.MatchString"] = func(st *pstate, fr *frame, fn *ssa.Function, args []value) value {
-		pat := goStr(args[0])
-		switch s := args[1].(type) {
+		return matchStringSym(st, goStr(args[0]), args[1])
+	}
+	intrinsics[zz+"Lang"] = langIntrinsic
+}
+
+func matchStringSym(st *pstate, pat string, arg value) value {
+	{
+		switch s := arg.(type) {
 		case string:
 			ok, err := regexp.MatchString(pat, s)
 			if err != nil {
@@ -243,9 +254,12 @@ func init() {
 			st.useStub("regexp.MatchString(p, s) on a string of symbolic ASCII bytes = (str.in_re <bytes as code points> [[p]])")
 			return tuple{symBool{st.nameBool("(str.in_re " + term + " " + r + ")")}, iface{}}
 		}
-		panic(unsupported(fmt.Sprintf("regexp.MatchString on %T", args[1])))
+		panic(unsupported(fmt.Sprintf("regexp.MatchString on %T", arg)))
 	}
-	intrinsics[zz+"Lang"] = func(st *pstate, fr *frame, fn *ssa.Function, args []value) value {
+}
+
+func langIntrinsic(st *pstate, fr *frame, fn *ssa.Function, args []value) value {
+	{
 		name := goStr(args[0])
 		lp := LangPath{Result: st.expandDefs(boolTerm(args[1]))}
 		for _, a := range st.pc {
